@@ -312,6 +312,7 @@ func (idx *HNSWIndex) Remove(vector VectorNode) error {
 	_, exists := idx.nodes[id]
 	alreadyDeleted := idx.deletedNodes.Contains(id)
 	idx.mu.RUnlock()
+	verifHook("hnsw.remove.checked", id)
 
 	// Fast-fail validation outside of write lock
 	if !exists {
@@ -472,6 +473,9 @@ func (idx *HNSWIndex) SetEfSearch(ef int) {
 
 // randomLevel assigns random level using geometric distribution.
 func (idx *HNSWIndex) randomLevel() int {
+	if l, ok := verifLevel(); ok {
+		return l
+	}
 	probability := 1.0 / float64(idx.M)
 	level := 0
 
@@ -737,6 +741,7 @@ func (idx *HNSWIndex) WriteTo(w io.Writer) (int64, error) {
 		return 0, fmt.Errorf("failed to flush before serialization: %w", err)
 	}
 
+	verifHook("hnsw.writeto.flushed")
 	idx.mu.RLock()
 	defer idx.mu.RUnlock()
 
